@@ -348,6 +348,54 @@ def target_group(chk):
                             f"target_cross_section_area {ta} (opening clipped to that width: {want_area}, usable area {ua}); a fresh pass given target_width = {tw} reads {tb}", data)
 
 
+def short_lived_passes(chk):
+    """passes that are built, read and dropped one after another (the addresses of their contour objects are re-used): what a pass reports for its opening is
+    its own - grooves of equal usable width and different depth, alternately, compared with two passes that are kept alive"""
+    import gc
+    from pyroll.core import RollPass, ThreeRollPass, Roll, BoxGroove
+    for cls, pad in ((RollPass, {}), (ThreeRollPass, {'pad_angle': 30})):
+        grooves = [BoxGroove(usable_width=40e-3, depth=d, r1=2e-3, r2=3e-3, flank_angle=70, **pad) for d in (8e-3, 12e-3)]
+        mk = lambda g: cls(label="p", roll=Roll(groove=g, nominal_radius=160e-3), gap=2e-3, target_width=36e-3)      # noqa
+        keep = [mk(g) for g in grooves]
+        ref = [(float(p.usable_cross_section.area), float(p.target_cross_section_area)) for p in keep]
+        if abs(ref[0][0] - ref[1][0]) < 1e-9:
+            continue
+        for i in range(60):
+            p = mk(grooves[i % 2])
+            got = (float(p.usable_cross_section.area), float(p.target_cross_section_area))
+            del p
+            gc.collect()
+            chk.cov['evaluations'] += 1
+            if any(abs(a - b) > 1e-9 * abs(b) for a, b in zip(got, ref[i % 2])):
+                return chk.fail('inconsistent', f"{cls.__name__} objects built, read and dropped one after another over two box grooves of equal usable width (depths 8 and 12 mm, target width "
+                                f"36 mm): number {i} (depth {8 if i % 2 == 0 else 12} mm) reports usable / target cross-section areas {got}, a pass of the same description that "
+                                f"is kept alive reports {ref[i % 2]}", {'case': 'short-lived passes', 'rolls': 2 if cls is RollPass else 3, 'i': i})
+
+
+def nested_totals(chk):
+    """a sequence's length and duration are the sums over its units - one and two levels down, whichever total is read first, solved or not"""
+    from pyroll.core import PassSequence, Transport
+    for order in ('outer first', 'inner first'):
+        for depth in (1, 2):
+            leaves = [Transport(label=f"t{i}", length=0.5 + i, duration=1.0 + i) for i in range(4)]
+            inner = PassSequence(leaves[1:3], label="inner")
+            if depth == 2:
+                inner = PassSequence([inner], label="middle")
+            outer = PassSequence([leaves[0], inner, leaves[3]], label="outer")
+            chk.cov['evaluations'] += 1
+            want_l, want_d = sum(0.5 + i for i in range(4)), sum(1.0 + i for i in range(4))
+            try:
+                if order == 'inner first':
+                    inner.length, inner.duration
+                got = (float(outer.length), float(outer.duration), float(inner.length), float(inner.duration))
+            except Exception as e:      # noqa
+                got = f"{type(e).__name__}: {str(e)[:100]}"
+            want = (want_l, want_d, 1.5 + 2.5, 2.0 + 3.0)
+            if got != want and not (isinstance(got, tuple) and all(abs(a - b) < 1e-12 for a, b in zip(got, want))):
+                return chk.fail('inconsistent', f"four transports with length and duration supplied, the middle two in a sequence {depth} level(s) down, totals read {order}: outer "
+                                f"length / duration, inner length / duration = {got}, the sums are {want}", {'group': 'sequence totals', 'depth': depth, 'order': order})
+
+
 def run(chk):
     _ta.generate(chk)
     for f in ('C16_proofs.v', 'C16.v'):
@@ -365,6 +413,10 @@ def run(chk):
         looked_at_template(chk)
     if not chk.failures:
         target_group(chk)
+    if not chk.failures:
+        nested_totals(chk)
+    if not chk.failures:
+        short_lived_passes(chk)
     chk.cov['distinct_nontrivial'] += len(seen)
     chk.cov['exhaustive'] = True
     chk.sample({'group': 'transport length/duration (velocity given)', 'supplied': ['length'], 'order': ['duration', 'length']})
